@@ -373,6 +373,7 @@ def user_script(w):
                 kbd = e
                 sched.emit('user.kbd', where=f'result{i}')
         try:
+            sched.emit('user.shutdown_called')
             m.shutdown()
             sched.emit('user.shutdown_returned')
         except KeyboardInterrupt:
@@ -382,6 +383,7 @@ def user_script(w):
         for i in range(n):
             submit_transfer(w, i)
         try:
+            sched.emit('user.shutdown_called')
             m.shutdown()
             sched.emit('user.shutdown_returned')
         except KeyboardInterrupt:
@@ -393,6 +395,7 @@ def user_script(w):
             with m:
                 for i in range(n):
                     submit_transfer(w, i)
+                sched.emit('user.shutdown_called')
             sched.emit('user.shutdown_returned')
         except KeyboardInterrupt:
             sched.emit('user.kbd', where='with-exit')
@@ -403,12 +406,15 @@ def user_script(w):
                 for i in range(n):
                     submit_transfer(w, i)
                 sched.point('user.body', 'with')
+                if script != 'with':
+                    sched.emit('user.shutdown_called')
                 if script == 'with_raise_kbd':
                     raise KeyboardInterrupt()
                 if script == 'with_raise_value':
                     raise UserBoom('boom')
                 if script == 'with_raise_empty':
                     raise UserBoom()
+                sched.emit('user.shutdown_called')
             sched.emit('user.shutdown_returned')
         except KeyboardInterrupt:
             sched.emit('user.shutdown_returned', raised='KeyboardInterrupt')
@@ -422,6 +428,7 @@ def user_script(w):
             collect(w, i)
         submit_transfer(w, n - 1)
         collect(w, n - 1)
+        sched.emit('user.shutdown_called')
         m.shutdown()
         sched.emit('user.shutdown_returned')
     else:
